@@ -159,26 +159,31 @@ func registerHTTP(e *Engine) {
 		if tr.t == nil {
 			panic(abort("http.Client without transport: real network"))
 		}
-		isDigest := false
-		if pt, ok := tr.t.Underlying().(*types.Pointer); ok {
-			if named, ok := pt.Elem().(*types.Named); ok && named.Obj().Pkg() != nil && named.Obj().Pkg().Path() == digestPkg && named.Obj().Name() == "Transport" {
-				isDigest = true
-			}
-		}
 		m.events = append(m.events, Event{Kind: "http.do", Args: []Value{m.http().urls[req]}})
-		if !isDigest {
-			resp, err := roundTrip(m, fr, tr, req)
-			return Tuple{resp, err}
-		}
+		resp, err := roundTrip(m, fr, tr, req)
+		return Tuple{resp, err}
+	}
+	globalOverrides[digestPkg+".ErrBadChallenge"] = func(m *Machine) Value { return m.newError(mkStr("challenge is bad")) }
+	globalOverrides[digestPkg+".ErrNilTransport"] = func(m *Machine) Value { return m.newError(mkStr("transport is nil")) }
+	in["(*"+digestPkg+".Transport).RoundTrip"] = func(m *Machine, fr *frame, a []Value) Value {
 		dT := e.namedType(digestPkg, "Transport")
-		dst := (*tr.v.(*Value)).(Struct)
+		dp, _ := a[0].(*Value)
+		if dp == nil {
+			panic(targetPanic{runtime: "invalid memory address or nil pointer dereference (nil *digest.Transport)"})
+		}
+		req := a[1].(*Value)
+		dst := (*dp).(Struct)
 		user := (*structFieldByName(dT, dst, "Username")).(Str)
 		pass := (*structFieldByName(dT, dst, "Password")).(Str)
 		base := (*structFieldByName(dT, dst, "Transport")).(Iface)
-		if base.t == nil {
-			panic(abort("digest.Transport without base transport: real network"))
+		gerr := func(name string) Iface {
+			p := m.global(m.prog.ImportedPackage(digestPkg).Var(name)).(*Value)
+			return (*p).(Iface)
 		}
-		m.note("contract: digest.Transport sends the request unauthenticated first and retries once with a digest Authorization header iff the answer is a 401 with a Digest challenge; the password is used only inside the digest hash")
+		if base.t == nil {
+			return Tuple{(*Value)(nil), gerr("ErrNilTransport")}
+		}
+		m.note("contract: digest.Transport sends the request unauthenticated first; a 401 with a Digest challenge is answered by one authenticated retry whose Authorization header uses the password only inside the digest hash; a 401 with another challenge yields ErrBadChallenge; anything else is passed through")
 		resp, err := roundTrip(m, fr, base, req)
 		if err.t != nil {
 			return Tuple{resp, err}
@@ -190,6 +195,9 @@ func registerHTTP(e *Engine) {
 		respT := e.namedType("net/http", "Response")
 		rst := (*rp).(Struct)
 		status := (*structFieldByName(respT, rst, "StatusCode")).(Num)
+		if status.t != nil || status.c != 401 {
+			return Tuple{resp, err}
+		}
 		hdr, _ := (*structFieldByName(respT, rst, "Header")).(*MapV)
 		challenge := Str{}
 		if hdr != nil {
@@ -201,32 +209,69 @@ func registerHTTP(e *Engine) {
 			}
 		}
 		cc, constCh := challenge.Const()
-		if status.t == nil && status.c == 401 && constCh && strings.HasPrefix(cc, "Digest ") {
-			// authenticated retry: a copy of the request with the digest response
-			st2 := copyVal((*req).(Struct)).(Struct)
-			oldH, _ := (*structFieldByName(reqT(), st2, "Header")).(*MapV)
-			nh := newMap()
-			if oldH != nil {
-				m.flushPending(oldH)
-				for _, en := range oldH.entries {
-					if !en.deleted {
-						nh.addEntry(en.k, copyVal(*en.v))
+		if !constCh {
+			panic(abort("digest: symbolic challenge"))
+		}
+		if cc == "" {
+			return Tuple{resp, err}
+		}
+		if !strings.HasPrefix(cc, "Digest ") {
+			return Tuple{(*Value)(nil), gerr("ErrBadChallenge")}
+		}
+		// authenticated retry: a copy of the request with the digest response
+		st2 := copyVal((*req).(Struct)).(Struct)
+		oldH, _ := (*structFieldByName(reqT(), st2, "Header")).(*MapV)
+		nh := newMap()
+		if oldH != nil {
+			m.flushPending(oldH)
+			for _, en := range oldH.entries {
+				if !en.deleted {
+					nh.addEntry(en.k, copyVal(*en.v))
+				}
+			}
+		}
+		auth := strConcat(strConcat(mkStr(`Digest username="`), user), mkStr(`", response="`))
+		auth = strConcat(auth, mkStrT(TUF("md5hex", SStr, user.Term(), pass.Term(), TStr(cc), m.http().urls[req].Term())))
+		auth = strConcat(auth, mkStr(`"`))
+		nh.addEntry(mkStr("Authorization"), mkStrSlice([]Str{auth}))
+		*structFieldByName(reqT(), st2, "Header") = nh
+		cell := new(Value)
+		*cell = st2
+		m.http().urls[cell] = m.http().urls[req]
+		resp2, err2 := roundTrip(m, fr, base, cell)
+		return Tuple{resp2, err2}
+	}
+	in["errors.Is"] = func(m *Machine, fr *frame, a []Value) Value {
+		cur, target := a[0].(Iface), a[1].(Iface)
+		for depth := 0; depth < 8; depth++ {
+			if cur.t == nil {
+				return target.t == nil
+			}
+			if target.t != nil && types.Identical(cur.t, target.t) {
+				if pa, ok := cur.v.(*Value); ok {
+					if pb, ok := target.v.(*Value); ok && pa == pb {
+						return true
 					}
 				}
 			}
-			auth := strConcat(strConcat(mkStr(`Digest username="`), user), mkStr(`", response="`))
-			auth = strConcat(auth, mkStrT(TUF("md5hex", SStr, user.Term(), pass.Term(), TStr(cc), m.http().urls[req].Term())))
-			auth = strConcat(auth, mkStr(`"`))
-			nh.addEntry(mkStr("Authorization"), mkStrSlice([]Str{auth}))
-			*structFieldByName(reqT(), st2, "Header") = nh
-			cell := new(Value)
-			*cell = st2
-			m.http().urls[cell] = m.http().urls[req]
-			resp2, err2 := roundTrip(m, fr, base, cell)
-			return Tuple{resp2, err2}
+			f := m.prog.LookupMethod(cur.t, nil, "Unwrap")
+			if f == nil {
+				return false
+			}
+			next, ok := m.callSSA(fr, 0, f, []Value{cur.v}, nil).(Iface)
+			if !ok {
+				return false
+			}
+			cur = next
 		}
-		return Tuple{resp, err}
+		return false
 	}
+	in[mainPath+".verifGzipErrHeader"] = func(m *Machine, fr *frame, a []Value) Value {
+		p := m.global(m.prog.ImportedPackage("compress/gzip").Var("ErrHeader")).(*Value)
+		return *p
+	}
+	globalOverrides["compress/gzip.ErrHeader"] = func(m *Machine) Value { return m.newError(mkStr("gzip: invalid header")) }
+	globalOverrides["compress/gzip.ErrChecksum"] = func(m *Machine) Value { return m.newError(mkStr("gzip: invalid checksum")) }
 	// bodies
 	in["io.ReadAll"] = func(m *Machine, fr *frame, a []Value) Value {
 		st, stt, ok := m.harnessBody(a[0].(Iface))
